@@ -769,9 +769,17 @@ func vf37TokenV1(o vf37TokV1Opts) []byte {
 	return b
 }
 
+// vf37Ctx is one context of a v2 token: a container (zero = wildcard) and the verbs
+// delegated for it.
+type vf37Ctx struct {
+	Cnr   cid.ID
+	Verbs []sessionv2.Verb
+}
+
 type vf37TokV2Opts struct {
 	Verbs    []sessionv2.Verb
-	Cnr      cid.ID // zero = wildcard
+	Cnr      cid.ID    // zero = wildcard
+	Ctxs     []vf37Ctx // if set: the token's contexts (Verbs/Cnr are ignored), in this order
 	Iat      time.Time
 	Nbf, Exp time.Time
 	Issuer   *keys.PrivateKey
@@ -783,11 +791,20 @@ type vf37TokV2Opts struct {
 func vf37TokenV2(o vf37TokV2Opts) (sessionv2.Token, []byte) {
 	var tok sessionv2.Token
 	tok.SetVersion(sessionv2.TokenCurrentVersion)
-	ctx, err := sessionv2.NewContext(o.Cnr, o.Verbs)
-	if err != nil {
-		panic(err)
+	specs := o.Ctxs
+	if len(specs) == 0 {
+		specs = []vf37Ctx{{Cnr: o.Cnr, Verbs: o.Verbs}}
 	}
-	if err = tok.SetContexts([]sessionv2.Context{ctx}); err != nil {
+	var ctxs []sessionv2.Context
+	for _, c := range specs {
+		ctx, err := sessionv2.NewContext(c.Cnr, slices.Clone(c.Verbs))
+		if err != nil {
+			panic(err)
+		}
+		ctxs = append(ctxs, ctx)
+	}
+	var err error
+	if err = tok.SetContexts(ctxs); err != nil {
 		panic(err)
 	}
 	if err = tok.SetSubjects([]sessionv2.Target{sessionv2.NewTargetUser(o.Subject)}); err != nil {
